@@ -76,6 +76,8 @@ def terms(depth):
     out.append(fixed('add(') + join([small[1], small[2]], ', ') + fixed(')'))
     out.append(fixed('join(') + join([small[0], small[0]], ', ') + fixed(')'))
     out.append(fixed('p()'))
+    # an integer that no f64 holds, after a float / an atom with a period in the same argument list
+    out += [fixed('g(0.5, 9007199254740993)'), fixed('[2.5, 9007199254740993]'), fixed('born(J. S. Bach, 9007199254740993, -9007199254740993)')]
     # characters outside ASCII (two and three bytes in UTF-8) in atoms, functors and variable names
     out += [fixed('Montréal'), fixed('ß'), fixed('$Ünder'), fixed('[é, Δ | $Ü]'), fixed('ville(Montréal, $Pop)'), fixed('größe(λ, [α, β])'), fixed('日本(東京)')]
     return dedupe(out)
@@ -108,6 +110,7 @@ def goals(depth):
             fixed('f($X) = f(a)')]
     out += [fixed('less_than(') + join([x, n], ', ') + fixed(')'), fixed('equal(') + join([x, a], ', ') + fixed(')'),
             fixed('greater_than_or_equal(') + join([x, fixed('$Y')], ', ') + fixed(')')]
+    out += [fixed('less_than(add($X, 1), multiply($Y, 2))'), fixed('pair($X, b) = pair(a, $Y)'), fixed('f(g($X)) = h(k($Y), [a])'), fixed('equal(f(a), g(b))')]
     out += [fixed('ville(Montréal, $Pop)'), fixed('größe($X, 7)'), fixed('$X = Δ'), fixed('print(é, $Ü)'), fixed('less_than($Ü, 7)'), fixed('日本(東京, $X)')]
     if depth > 0:
         g = out[:2] + out[7:8] + out[14:15]
@@ -119,8 +122,15 @@ def goals(depth):
 
 def sugar_goals():
     """accepted syntax that prints in another (canonical) form"""
-    return [fixed('$X < 5'), fixed('$X <= $Y'), fixed('$X > 2.5'), fixed('$X >= a'), fixed('$X == b'), fixed('$X = $Y + 1'), fixed('$X = 7 - 2'),
-            fixed('$X = $Y * 2.5'), fixed('$X = 9 / 3'), fixed('q'), fixed('go')]
+    return [fixed(t) for t, _ in SUGAR]
+
+
+# infix / bare forms and the named form they stand for (documented equivalences)
+SUGAR = [('$X < 5', 'less_than($X, 5)'), ('$X <= $Y', 'less_than_or_equal($X, $Y)'), ('$X > 2.5', 'greater_than($X, 2.5)'), ('$X >= a', 'greater_than_or_equal($X, a)'),
+         ('$X == b', 'equal($X, b)'), ('$X = $Y + 1', '$X = add($Y, 1)'), ('$X = 7 - 2', '$X = subtract(7, 2)'), ('$X = $Y * 2.5', '$X = multiply($Y, 2.5)'),
+         ('$X = 9 / 3', '$X = divide(9, 3)'), ('q', None), ('go', None),
+         ('add($X, 1) < multiply($Y, 2)', 'less_than(add($X, 1), multiply($Y, 2))'), ('f($X) == g(a)', 'equal(f($X), g(a))'), ('f(g($X)) >= h([a], k(b))', 'greater_than_or_equal(f(g($X)), h([a], k(b)))'),
+         ('[a, b] == [a | $T]', 'equal([a, b], [a | $T])'), ('$X = f(a) + 1', None)]
 
 
 def bodies(depth):
@@ -149,6 +159,7 @@ def rules(depth):
     for h in heads[1:4]:
         for b in bs:
             out.append(h + fixed(' :- ') + b + fixed('.'))
+    out += [fixed('sample(0.5, 9007199254740993).'), fixed('s($X) :- $X = 0.5, r(1.5, 9007199254740993), less_than(add(add($X, 1), 2), multiply($X, 2)), pair($X, b) = pair(a, $Y).')]
     out += [fixed('ville(Montréal, 1700000).'), fixed('größe($X, $Y) :- maß($X, $Y), $Y = Δ.'), fixed('é($X) :- ß($X); not(ü($X)).')]
     return dedupe(out)
 
